@@ -42,12 +42,16 @@ def var_store(it, scope="g"):
         return SV(z3.Function("var.has", ObjS, WorldS, z3.BoolSort())(nm(k), i.world))
 
     def get(i, k):
+        if not i.eng.branch(has(i, k).t, "var.has"):
+            raise exc("KeyError", k)
         return SV(z3.Function("var.load", ObjS, WorldS, ObjS)(nm(k), i.world))
 
     def put(i, k, v):
         i.world = z3.Function("var.store", ObjS, ObjS, WorldS, WorldS)(nm(k), i.obj(v), i.world)
 
     def dele(i, k):
+        if not i.eng.branch(has(i, k).t, "var.has"):
+            raise exc("KeyError", k)
         i.world = z3.Function("var.delete", ObjS, WorldS, WorldS)(nm(k), i.world)
 
     def setdefault(i, k, d=None):
@@ -74,6 +78,8 @@ class EvalHarness:
         self.sleep_sentinel = Rec(name="time.sleep")
         astmod = PyModule("ast", {n: getattr(ast, n) for n in dir(ast) if not n.startswith("_")})
         astmod.attrs["Opaque"] = Opaque
+        astmod.attrs["iter_child_nodes"] = lambda i, n: list(ast.iter_child_nodes(n))
+        astmod.attrs["get_docstring"] = lambda i, n: ast.get_docstring(n)
         self.log = []
         stubs = {
             "_LOGGER": logger_stub(), "ast": astmod,
